@@ -119,6 +119,51 @@ def eval (env : Env) : Expr → Option Rat
     | some x, some y => evalBin o x y
     | _, _ => none
 
+/-- The integer fragment: what can be built from dimensions and integers with
+    `+ - * // %`, negation, floor, ceil, trunc, abs, sign, max, min (no true division, no power). -/
+def intFrag : Expr → Bool
+  | .num _ => true
+  | .sym _ => true
+  | .inf _ => false
+  | .un .sqrt _ => false
+  | .un _ a => intFrag a
+  | .bin .div _ _ => false
+  | .bin .pow _ _ => false
+  | .bin _ a b => intFrag a && intFrag b
+
+/-- Python integer arithmetic on the integer fragment: `//` is `Int.fdiv`, `%` is `Int.fmod`
+    (`ZeroDivisionError` = `none`); floor, ceil and trunc of an `int` are the identity. -/
+def evalInt (env : Env) : Expr → Option Int
+  | .num n => some n
+  | .sym s => env s
+  | .inf _ => none
+  | .un o a =>
+    match evalInt env a with
+    | none => none
+    | some x =>
+      match o with
+      | .neg => some (-x)
+      | .floor => some x
+      | .ceil => some x
+      | .trunc => some x
+      | .abs => some (x.natAbs : Int)
+      | .sign => some x.sign
+      | .sqrt => none
+  | .bin o a b =>
+    match evalInt env a, evalInt env b with
+    | some x, some y =>
+      match o with
+      | .add => some (x + y)
+      | .sub => some (x - y)
+      | .mul => some (x * y)
+      | .div => none
+      | .fdiv => if y = 0 then none else some (Int.fdiv x y)
+      | .mod => if y = 0 then none else some (Int.fmod x y)
+      | .pow => none
+      | .max => some (if x ≤ y then y else x)
+      | .min => some (if x ≤ y then x else y)
+    | _, _ => none
+
 /-- Substitution of the bound symbols (what a partial `evaluate` does, without SymPy's
     re-simplification). -/
 def subst (b : Env) : Expr → Expr
